@@ -15,7 +15,7 @@ func init() {
 		ID: "C05",
 		Explain: "Decides structural necessary conditions of 'each selected permutation is executed exactly once against a matching server': " +
 			"(bound) every server goroutine is started after a successful semaphore Acquire(1), on the client-still-running edge, after wg.Add(1), and defers Release(1) and wg.Done(); wg.Wait is deferred; the semaphore is NewWeighted(MaxServers) unmodified; empty batches never acquire; " +
-			"(stop) once the server was started every exit of runTestCasesForServer passes the deferred abort; every started client gets a deferred stop; " +
+			"(stop) once the server was started every exit of runTestCasesForServer passes the deferred abort, and the normal tail waits for the server's exit unconditionally before returning (and thereby releasing its permit); every started client gets a deferred stop; " +
 			"(complete) the request sent to the client gets host (or the default host when empty), port, certificate and client credentials from the server's response / the batch, and the x-test-case-name header with the case's own name (also on a raw request); the server request carries the instance's protocol, HTTP version, TLS flag, with credentials nil-ed when unused; the header name agrees with both readers up to MIME canonicalisation; " +
 			"(select) the batch handed to a server is filter.apply(filterGRPCImplTestCases(casesByServer[instance], client.isGrpcImpl, server.isGrpcImpl)) in that order with those arguments, and the goroutine runs it with the same instance and the matching reference flags/credentials/starter; gRPC-peer permutations are clones renamed with the marker; a duplicate name is refused before anything is written; " +
 			"(cancel-link) the server's termination cancels the batch context, which is tested before each send. " +
@@ -39,6 +39,9 @@ func init() {
 			Expect: []string{"bound.release"}, Note: "server permit never released: the run stops after max-servers batches"},
 		Mutant{ID: "C05-acquire-after-go", Prop: "C05", File: fc, Old: "\t\t\t\t\tif err := sema.Acquire(ctx, 1); err != nil {\n\t\t\t\t\t\treturn err\n\t\t\t\t\t}\n", New: "\t\t\t\t\t_ = sema.Acquire(ctx, 1)\n",
 			Expect: []string{"bound.acquire"}, Note: "goroutine started although the permit was not obtained"},
+		Mutant{ID: "C05-result-conditional", Prop: "C05", File: fs,
+			Old: "\t_ = serverProcess.result() // wait for server process to end\n\tif isReferenceServer {\n\t\t<-refServerFinished\n\t}", New: "\tif isReferenceServer {\n\t\t_ = serverProcess.result() // wait for server process to end\n\t\t<-refServerFinished\n\t}",
+			Expect: []string{"tail.order"}, Note: "seed C05-2: permit released while a non-reference server is still alive"},
 		Mutant{ID: "C05-port-dropped", Prop: "C05", File: fs, Old: "\t\treq.Port = resp.Port\n", New: "",
 			Expect: []string{"complete.Port"}, Note: "client request keeps the placeholder port"},
 		Mutant{ID: "C05-cert-from-creds", Prop: "C05", File: fs, Old: "\t\treq.ServerTlsCert = resp.PemCert\n", New: "\t\treq.ServerTlsCert = serverCreds.GetCert()\n",
@@ -335,6 +338,12 @@ func runC05(p *Prog, r *Report) {
 		}
 		r.Check(ok, "stop.server", "R-MUSTCALL", p.InstrPos(abortDefers[0]), "after a successful start every exit passes the deferred abort", "runTestCasesForServer has an exit after the server was started that does not pass `defer serverProcess.abort()`: the server would be left running")
 	}
+	// the permit is released (function returns) only after the server's exit was awaited (shared with C11)
+	frObj := p.TypeFunc(pkgCC, "testResults", "failRemaining")
+	tailRules(p, r, rts, func(in ssa.Instruction) bool {
+		c := callCommon(in)
+		return c != nil && calleeObj(c) == frObj
+	})
 	runClientObj := p.TypeFunc(pkgCC, "", "runClient")
 	okStop := false
 	for _, fn := range withClosures(run) {
